@@ -77,7 +77,7 @@ def share_encoder_parameters(
     # memory overhead and speeds up training
     param_vals: TensorDict = from_module(policy.encoder).detach()
     for other in others:
-        target_params: TensorDict = param_vals.clone().lock_()
+        target_params: TensorDict = param_vals.clone(False).lock_()
         target_params.to_module(other.encoder)
 
         # Disable architecture mutations since we will be
